@@ -645,7 +645,7 @@ func TestC23(t *testing.T) {
 		if cases >= 250 {
 			need("op:replace-json-entry", 0.03)
 			need("op:replace-json-container", 0.03)
-			need("key:needs-escape(=])", 0.003)
+			need("key:needs-escape(=])", 0.004)
 		}
 		if f := float64(errCases) / float64(cases); f > 0.15 {
 			t.Errorf("INCONCLUSIVE: DiffSetRequestToNotifications returned an error in %.1f%% of %d cases (budget 15%%): %v", 100*f, cases, errKinds)
